@@ -6,18 +6,57 @@ quotient and remainder, for every digit width w ≥ 2.
 import RelicVerif.Lemmas.BnLowAdd
 import RelicVerif.Lemmas.BnLowMul
 import RelicVerif.Lemmas.BnLowShift
+import RelicVerif.Lemmas.KnuthDCore
 
 namespace Relic.Model
 
+-- STATEMENT CHANGED: added the hypothesis `hge : val (2 ^ w) b ≤ val (2 ^ w) a` (|a| ≥ |b|), which the only
+-- caller bn_div_imp guarantees through its bn_cmp_abs guard. Without it the statement is false:
+-- `divnLow 8 [1] [255] = ([1, 0, 0], [0], _)`, i.e. 1 / 255 = 1 rem 0. When the top digit of `b` has all
+-- `w` bits the normalising shift is `w - 1` and `b` grows by a digit; if `a` (same length, top digit ≤ 1)
+-- does not grow, then `sa < sb`, `n - t` underflows and the initial compare/subtract loop misfires.
 theorem divnLow_spec (w : Nat) (hw : 2 ≤ w) (a b : List Nat)
     (hab : b.length ≤ a.length) (hb0 : b ≠ []) (hbt : b.getLast? ≠ some 0)
-    (hda : ∀ d ∈ a, d < 2 ^ w) (hdb : ∀ d ∈ b, d < 2 ^ w) :
+    (hda : ∀ d ∈ a, d < 2 ^ w) (hdb : ∀ d ∈ b, d < 2 ^ w)
+    (hge : val (2 ^ w) b ≤ val (2 ^ w) a) :
     let q := (divnLow w a b).1.take (a.length - b.length + 1)
     let r := (divnLow w a b).2.1.take b.length
     val (2 ^ w) q * val (2 ^ w) b + val (2 ^ w) r = val (2 ^ w) a
     ∧ val (2 ^ w) r < val (2 ^ w) b
     ∧ (∀ d ∈ q, d < 2 ^ w) ∧ (∀ d ∈ r, d < 2 ^ w)
     ∧ q.length = a.length - b.length + 1 ∧ r.length = b.length := by
-  sorry
+  obtain ⟨c1, c2, c3, c4, c5, c6⟩ := divnLow_core w hw a b hab hb0 hbt hda hdb hge
+  have hB0 : 0 < 2 ^ w := Nat.pow_pos (by omega)
+  have hbl : 0 < b.length := List.length_pos_iff.mpr hb0
+  have hVlt := val_lt (2 ^ w) b hdb
+  have hAlt := val_lt (2 ^ w) a hda
+  have hVge : (2 ^ w) ^ (b.length - 1) ≤ val (2 ^ w) b := by
+    have h1 := val_ge_top (2 ^ w) b hbl
+    have h2 := top_pos b hb0 hbt
+    have : (2 ^ w) ^ (b.length - 1) * 1 ≤ (2 ^ w) ^ (b.length - 1) * b.getD (b.length - 1) 0 :=
+      Nat.mul_le_mul_left _ h2
+    omega
+  -- the quotient fits in a.length - b.length + 1 digits
+  have hQlt : val (2 ^ w) (divnLow w a b).1 < (2 ^ w) ^ (a.length - b.length + 1) := by
+    have e : (2 ^ w) ^ a.length = (2 ^ w) ^ (a.length - b.length + 1) * (2 ^ w) ^ (b.length - 1) := by
+      rw [← Nat.pow_add]; congr 1; omega
+    have h1 : val (2 ^ w) (divnLow w a b).1 * (2 ^ w) ^ (b.length - 1)
+        ≤ val (2 ^ w) (divnLow w a b).1 * val (2 ^ w) b := Nat.mul_le_mul_left _ hVge
+    have h2 : val (2 ^ w) (divnLow w a b).1 * (2 ^ w) ^ (b.length - 1)
+        < (2 ^ w) ^ (a.length - b.length + 1) * (2 ^ w) ^ (b.length - 1) := by
+      rw [← e]; omega
+    exact Nat.lt_of_mul_lt_mul_right h2
+  have hq := val_take_of_lt (2 ^ w) (divnLow w a b).1 (a.length - b.length + 1) hQlt
+  have hr := val_take_of_lt (2 ^ w) (divnLow w a b).2.1 b.length (by omega)
+  intro q r
+  refine ⟨?_, ?_, digs_take c3 _, digs_take c4 _, ?_, ?_⟩
+  · show val (2 ^ w) ((divnLow w a b).1.take _) * _ + val (2 ^ w) ((divnLow w a b).2.1.take _) = _
+    rw [hq, hr]; exact c1
+  · show val (2 ^ w) ((divnLow w a b).2.1.take _) < _
+    rw [hr]; exact c2
+  · show ((divnLow w a b).1.take _).length = _
+    rw [List.length_take, c5]; omega
+  · show ((divnLow w a b).2.1.take _).length = _
+    rw [List.length_take]; omega
 
 end Relic.Model
